@@ -46,6 +46,7 @@ def gen_ops(rng, tier, ctx=None):
     table, skipped = apigen.table(build)
     reps = 120 if tier == "quick" else 1500
     yield "api_count"
+    yield from gen_huge(rng, tier, table)
     for name, sig, ret in table:
         pats = patterns(sig)
         for (P, mask) in pats:
@@ -56,6 +57,48 @@ def gen_ops(rng, tier, ctx=None):
             for _ in range(reps):
                 toks = apigen.gen_args(rng, name, sig, P1, m1, P2, m2)
                 yield "api_alias2 %s %x %x %x %x %s" % (sbytes(name), P1, m1, P2, m2, " ".join(t for ts in toks for t in ts))
+
+HUGE = ["mpz_root", "mpz_nthroot", "mpz_rootrem", "mpz_sqrt", "mpz_sqrtrem", "mpz_mul", "mpz_add", "mpz_sub", "mpz_tdiv_q", "mpz_tdiv_r", "mpz_tdiv_qr",
+        "mpz_fdiv_qr", "mpz_cdiv_q", "mpz_mod", "mpz_and", "mpz_xor", "mpz_com", "mpz_mul_2exp", "mpz_fdiv_q_2exp", "mpz_neg", "mpz_mul_ui", "mpz_add_ui"]
+
+def gen_huge(rng, tier, table):
+    """operands of 8200..17000 limbs: temporaries are heap blocks (TMP_ALLOC above 65536 bytes), so a result copied
+    back from scratch after TMP_FREE, or a stale pointer into scratch, becomes visible (poisoned on free)"""
+    sig = {n: s for n, s, r in table}
+    for name in HUGE:
+        if name not in sig: continue
+        s = sig[name]
+        pats = patterns(s)[:4] + [None]
+        for pat in pats[: (2 if tier == "quick" else 5)]:
+            toks = []
+            big = rng.choice([8200, 9000, 16400, 16500])
+            if name in ("mpz_root", "mpz_nthroot", "mpz_rootrem", "mpz_sqrt", "mpz_sqrtrem"): big = 16500      # the ROOT must reach the heap-temporary size
+            for i, c in enumerate(s):
+                if c in "Zz":
+                    n = big if (rng.random() < 0.7 or name in ("mpz_root", "mpz_nthroot", "mpz_rootrem", "mpz_sqrt", "mpz_sqrtrem")) else rng.choice([1, 3, big // 2])
+                    v = 0
+                    for k, x in enumerate(rand_limbs(rng, n, rng.choice(["uniform", "runs"]))): v |= x << (64 * k)
+                    v |= 1 << (64 * n - 1)
+                    if rng.random() < 0.3: v = -v
+                    toks.append([hx(v)])
+                elif c == "u": toks.append([hx(rng.choice([1, 2]) if name in ("mpz_root", "mpz_nthroot", "mpz_rootrem") else rng.getrandbits(64))])
+                elif c == "b": toks.append([hx(rng.choice([1, 63, 64, 65]))])
+                else: toks.append(["1"])
+            if pat is None: continue
+            P, mask = pat
+            first = min(i for i in range(len(s)) if mask >> i & 1)
+            for i in range(len(s)):
+                if i == P or (mask >> i & 1): toks[i] = toks[first]
+            if name in ("mpz_root", "mpz_nthroot", "mpz_rootrem", "mpz_sqrt", "mpz_sqrtrem"):
+                zi = [i for i, c in enumerate(s) if c in "Zz"]
+                for i in zi: toks[i] = [toks[i][0].lstrip("-")]
+            if name == "mpz_divexact":
+                zi = [i for i, c in enumerate(s) if c == "z"]
+                d = int(toks[zi[1]][0].lstrip("-"), 16) >> (64 * 4000) or 3
+                if zi[0] != zi[1] and not (mask >> zi[0] & 1 and mask >> zi[1] & 1):
+                    toks[zi[1]] = [hx(d)]; toks[zi[0]] = [hx(d * (int(toks[zi[0]][0].lstrip("-"), 16) >> (64 * 4000)))]
+                    if (mask >> zi[0] & 1) or P == zi[0]: toks[P] = toks[zi[0]]
+            yield "api_alias %s %x %x %s" % (sbytes(name), P, mask, " ".join(t for ts in toks for t in ts))
 
 def nontrivial(line):
     return line if line.startswith("api_alias") else None
